@@ -6,6 +6,8 @@ EXPLANATION = ("Interface part: bounded runtime contracts under real TensorFlow:
                "and uncertain exponents.  Bounded groups are reported separately and never counted as proved.")
 ASSUMPTIONS = ["A-LIB: numpy.linalg.inv / eig"]
 
+EXPLANATION += (' FitFractions.get_frac / get_frac_diag_sum errors == sqrt(g V g) for the covariance in force at each query (proved).')
+
 from vt.contracts import iface_nll  # noqa: F401,E402
 from vt.contracts import errnum  # noqa: F401,E402
 from vt.contracts import fitfrac_sym  # noqa: F401,E402
